@@ -52,15 +52,23 @@ def run_impl(chunks, kinds):
     h.connection_made(MagicMock())
     per_call = []
     status = "ok"
+    shared = bytearray()       # kind 3: ONE bytearray object, refilled for every read (a transport's own receive buffer)
     for c, k in zip(chunks, kinds):
         # mutable buffers belong to the caller: they are overwritten as soon as data_received returns
-        backing = bytearray(c) if k in (1, 2) else None
-        data = c if k == 0 else backing if k == 1 else memoryview(backing)
+        if k == 4 and len(c) % 2:
+            k = 2
+        if k == 3:
+            del shared[:]
+            shared += c
+            backing = shared
+        else:
+            backing = bytearray(c) if k in (1, 2, 4) else None
+        data = c if k == 0 else backing if k in (1, 3) else memoryview(backing) if k == 2 else memoryview(backing).cast("H")
         n0, e0 = len(conn.calls), len(conn.errors)
         try:
             h.data_received(data)
             if backing is not None:
-                if k == 2:
+                if k in (2, 4):
                     data.release()
                 backing[:] = b"\xee" * len(backing)
         except Exception as ex:  # raw exception escaping data_received
@@ -200,7 +208,7 @@ def run(rep, tier, seed):
             t = enc_frame(*gen_frames(rng)[0])
             tail = t[: rng.randrange(0, len(t))]
         chunks, mode = gen_chunking(rng, stream + tail)
-        kinds = [rng.randrange(3) for _ in chunks]
+        kinds = [rng.choice([0, 0, 1, 2, 3, 3, 4]) for _ in chunks]
         cases.append((mode, fs, tail, chunks, kinds, True))
     # many complete frames in one read (every one of them is due when the call returns, however many there are)
     for i in range(8 if tier == "quick" else 60):
